@@ -846,6 +846,73 @@ theorem snapshot_frame (c : Cfg) (eng : Nat → Nat → Nat) (s : LState) (t : N
     · subst hi; simp
     · simp [hi]
 
+/-! ## shared writes happen inside the lock window -/
+
+theorem shared_writes_step {c : Cfg} {L : Nat} (hwf : WF c L) (eng : Nat → Nat → Nat) {s : LState}
+    (hI : Inv c s) (t : Nat)
+    (hd : (step c eng s t).mstate ≠ s.mstate ∨ (step c eng s t).cmap ≠ s.cmap ∨
+      (step c eng s t).current ≠ s.current) : s.owner L = t + 1 := by
+  rcases step_cases c eng s t with h | ⟨x, r, f, fs, s1, hp, hf, he, h⟩ |
+      ⟨tgt, tag, p, hp, hprog, hc, h⟩ | ⟨tgt, tag, p, hp, hprog, hc, h⟩ |
+      ⟨a, p, f, fs, hp, hprog, hf, h⟩ | ⟨r, p, fs, hp, hprog, hf, h⟩ |
+      ⟨r, p, x, f, fs, hp, hprog, hf, h⟩ | ⟨m, xs, p, f, fs, hp, hprog, hf, h⟩ |
+      ⟨m, p, f, fs, hp, hprog, hf, h⟩ | ⟨p, f, fs, hp, hprog, hf, h⟩
+  · rw [h] at hd; simp at hd
+  · -- enter
+    rw [h] at hd
+    obtain ⟨_, e2, _, e4, _⟩ := enterCtx_some he
+    cases x with
+    | lock l =>
+      have hfree : s.owner l = 0 := by
+        by_cases h0 : s.owner l = 0
+        · exact h0
+        · simp [enterCtx, h0] at he
+      have hs1 : s1 = { s with owner := fun i => if i = l then t + 1 else s.owner i } := by
+        simpa [enterCtx, hfree] using he.symm
+      subst hs1
+      simp at hd
+    | user u =>
+      have hs1 : s1 = s := by simpa [enterCtx] using he.symm
+      subst hs1
+      simp at hd
+    | ident =>
+      obtain ⟨f0, l0, h1, hex, hg, hctx⟩ := (hI.ph t).of_pend hp
+      obtain ⟨rfl, rfl⟩ : f = f0 ∧ fs = [] := by simpa [hf] using h1
+      have hL : Ctx.lock L ∈ f := by
+        have : (f.reverse ++ [Ctx.ident]) ++ r = l0 := by simpa using hctx
+        have := hg.prefix_ident_lock hwf this (by simp)
+        simpa using this
+      exact (hI.own t L).1 (by simpa [held, hf] using hL)
+  · rw [h] at hd; simp at hd
+  · rw [h] at hd; simp at hd
+  · have hex : (s.th t).exiting = false := hI.not_exiting_of_prog (by simp [hprog])
+    exact hI.body_owner hwf ⟨by simp [hf], hp, hex⟩
+  · rw [h] at hd; simp at hd
+  · -- exit
+    rw [h] at hd
+    cases x with
+    | lock l => simp [exitCtx] at hd
+    | user u => simp [exitCtx] at hd
+    | ident =>
+      have hi : Ctx.ident ∈ held (s.th t) := by simp [held, hf]
+      exact (hI.own t L).1 ((hI.ph t).ident_lock hwf hi)
+  · have hex : (s.th t).exiting = false := hI.not_exiting_of_prog (by simp [hprog])
+    exact hI.body_owner hwf ⟨by simp [hf], hp, hex⟩
+  · have hex : (s.th t).exiting = false := hI.not_exiting_of_prog (by simp [hprog])
+    exact hI.body_owner hwf ⟨by simp [hf], hp, hex⟩
+  · rw [h] at hd; simp at hd
+
+theorem shared_writes (c : Cfg) (L : Nat) (hwf : WF c L) (eng : Nat → Nat → Nat)
+    (progs : Nat → List Op) (hp : ProgOK progs) (ms : Nat) (σ : List Nat) (t : Nat) :
+    let s := runSched c eng (init c progs ms) σ
+    let s' := step c eng s t
+    s'.ung = false →
+    (s'.mstate ≠ s.mstate ∨ s'.cmap ≠ s.cmap ∨ s'.current ≠ s.current) → s.owner L = t + 1 := by
+  intro s s' hu hd
+  have hI : Inv c s :=
+    Inv.run hwf eng σ (Inv.init hwf progs hp ms) (ung_mono c eng s t hu)
+  exact shared_writes_step hwf eng hI t hd
+
 /-! ## the context-order monitor -/
 
 /-- the monitor expects exactly the contexts the code enters -/
